@@ -1023,3 +1023,216 @@ func specUnmarshalPost(e int) *Conf { return ptrAt[Conf](int(gfield("unmarshal.p
 // non-greedy single-line block comments) is not decided by the verifier, only that the code still
 // uses exactly this pattern.
 //@ pinned regexp.MustCompile `(?m)//.*$|/\*.*?\*/`
+
+// ---------------------------------------------------------------------------
+// C16 / C04: P4Runtime entries are valid for the shipped pipeline and denote the rules
+// ---------------------------------------------------------------------------
+//
+// The name/kind/width facts come from conf/p4/bin/p4info.txt, parsed on every run into the
+// specification functions oracleP4* (see govc/oracle.go). The five helpers that look names up in
+// the run-time P4Info are the trusted boundary: their preconditions say what a valid use is, their
+// effect is recorded in the ghost logs "p4f" (match fields) and "p4p" (action parameters).
+
+// specP4Val: the number a value denotes once convertValueToBinary has encoded it.
+func specP4Val(v any) uint64 {
+	if typeIs[uint8](v) {
+		return uint64(v.(uint8))
+	}
+	if typeIs[uint16](v) {
+		return uint64(v.(uint16))
+	}
+	if typeIs[uint32](v) {
+		return uint64(v.(uint32))
+	}
+	if typeIs[uint64](v) {
+		return v.(uint64)
+	}
+	if typeIs[int](v) {
+		return uint64(uint32(v.(int)))
+	}
+	if typeIs[bool](v) && v.(bool) {
+		return 1
+	}
+
+	return 0
+}
+
+// specP4Encodable: convertValueToBinary accepts the dynamic type (and an int is not negative).
+func specP4Encodable(v any) bool {
+	return typeIs[uint8](v) || typeIs[uint16](v) || typeIs[uint32](v) || typeIs[uint64](v) || typeIs[bool](v) ||
+		(typeIs[int](v) && 0 <= v.(int) && v.(int) <= 4294967295)
+}
+
+func specP4FieldLogged(e int, entry *p4.TableEntry, name string, kind int, val, val2 uint64) bool {
+	return gfield("p4f.entry", e) == uint64(refOf(entry)) && gfieldS("p4f.name", e) == name && gfield("p4f.kind", e) == uint64(kind) &&
+		gfield("p4f.val", e) == val && gfield("p4f.val2", e) == val2
+}
+
+//@ func (t *P4rtTranslator) withExactMatchField(entry *p4.TableEntry, name string, value interface{}) (err error)
+//@   trusted
+//@   requires C16.field.entry: entry != nil && oracleP4HasTable(entry.TableId)
+//@   requires C16.field.kind: oracleP4FieldKind(entry.TableId, name) == 1
+//@   requires C16.field.fits: specP4Encodable(value) && specP4Val(value) <= oracleP4FieldMax(entry.TableId, name)
+//@   appends p4f
+//@   ensures specP4FieldLogged(gentry("p4f", glen("p4f")-1), entry, name, 1, specP4Val(value), 0)
+
+//@ func (t *P4rtTranslator) withLPMField(entry *p4.TableEntry, name string, value uint32, prefixLen uint8) (err error)
+//@   trusted
+//@   requires C16.field.entry: entry != nil && oracleP4HasTable(entry.TableId)
+//@   requires C16.field.kind: oracleP4FieldKind(entry.TableId, name) == 2
+//@   requires C16.field.fits: uint64(value) <= oracleP4FieldMax(entry.TableId, name) && 1 <= prefixLen && int(prefixLen) <= oracleP4FieldWidth(entry.TableId, name)
+//@   appends p4f
+//@   ensures specP4FieldLogged(gentry("p4f", glen("p4f")-1), entry, name, 2, uint64(value), uint64(prefixLen))
+
+//@ func (t *P4rtTranslator) withRangeMatchField(entry *p4.TableEntry, name string, low interface{}, high interface{}) (err error)
+//@   trusted
+//@   requires C16.field.entry: entry != nil && oracleP4HasTable(entry.TableId)
+//@   requires C16.field.kind: oracleP4FieldKind(entry.TableId, name) == 4
+//@   requires C16.field.fits: specP4Encodable(low) && specP4Encodable(high) && specP4Val(low) <= specP4Val(high) && specP4Val(high) <= oracleP4FieldMax(entry.TableId, name)
+//@   appends p4f
+//@   ensures specP4FieldLogged(gentry("p4f", glen("p4f")-1), entry, name, 4, specP4Val(low), specP4Val(high))
+
+//@ func (t *P4rtTranslator) withTernaryMatchField(entry *p4.TableEntry, name string, value interface{}, mask interface{}) (err error)
+//@   trusted
+//@   requires C16.field.entry: entry != nil && oracleP4HasTable(entry.TableId)
+//@   requires C16.field.kind: oracleP4FieldKind(entry.TableId, name) == 3
+//@   requires C16.field.fits: specP4Encodable(value) && specP4Encodable(mask) && specP4Val(value) <= oracleP4FieldMax(entry.TableId, name) && specP4Val(mask) <= oracleP4FieldMax(entry.TableId, name) && specP4Val(mask) != 0
+//@   appends p4f
+//@   ensures specP4FieldLogged(gentry("p4f", glen("p4f")-1), entry, name, 3, specP4Val(value), specP4Val(mask))
+
+func specP4ParamLogged(e int, action *p4.Action, name string, val uint64) bool {
+	return gfield("p4p.action", e) == uint64(refOf(action)) && gfieldS("p4p.name", e) == name && gfield("p4p.val", e) == val
+}
+
+//@ func (t *P4rtTranslator) withActionParam(action *p4.Action, name string, value interface{}) (err error)
+//@   trusted
+//@   requires C16.param.action: action != nil && oracleP4HasAction(action.ActionId)
+//@   requires C16.param.fits: specP4Encodable(value) && oracleP4ParamMax(action.ActionId, name) != 0 && specP4Val(value) <= oracleP4ParamMax(action.ActionId, name)
+//@   appends p4p
+//@   ensures specP4ParamLogged(gentry("p4p", glen("p4p")-1), action, name, specP4Val(value))
+
+// specEntryAction: the action of a table entry.
+func specEntryAction(e *p4.TableEntry) *p4.Action {
+	return e.Action.Type.(*p4.TableAction_Action).Action
+}
+
+// specEntryStruct: the entry carries a plain action.
+func specEntryStruct(e *p4.TableEntry) bool {
+	return e != nil && e.Action != nil && typeIs[*p4.TableAction_Action](e.Action.Type) && specEntryAction(e) != nil
+}
+
+// specEntryShape(e, nparams) (C16, defined next to the p4info oracle in /verif/contracts/ext/p4shape.ctr):
+// the action is allowed for the table, declares nparams parameters, and a priority is set iff the
+// table has ternary/range fields.
+
+//@ func (t *P4rtTranslator) buildUplinkSessionsEntry(pdr pdr, sessMeterIdx uint32) (entry *p4.TableEntry, err error)
+//@   requires t != nil
+//@   requires C16.up.meteridx: int64(sessMeterIdx) < oracleP4MeterSize(p4constants.MeterPreQosPipeSessionMeter)
+//@   ensures C04.sessup.result: (err == nil) <==> (entry != nil)
+//@   ensures C16.sessup.shape: err == nil ==> specEntryShape(entry, 1) && !allocated(entry) && entry.TableId == p4constants.TablePreQosPipeSessionsUplink && specEntryAction(entry).ActionId == p4constants.ActionPreQosPipeSetSessionUplink
+//@   ensures C04.sessup.key: err == nil ==> glen("p4f") == old[int](glen("p4f"))+2 && specP4FieldLogged(gentry("p4f", old[int](glen("p4f"))), entry, "n3_address", 1, uint64(pdr.tunnelIP4Dst), 0) && specP4FieldLogged(gentry("p4f", old[int](glen("p4f"))+1), entry, "teid", 1, uint64(pdr.tunnelTEID), 0)
+//@   ensures C04.sessup.params: err == nil ==> glen("p4p") == old[int](glen("p4p"))+1 && specP4ParamLogged(gentry("p4p", old[int](glen("p4p"))), specEntryAction(entry), "session_meter_idx", uint64(sessMeterIdx))
+
+//@ func (t *P4rtTranslator) buildDownlinkSessionsEntry(pdr pdr, sessMeterIdx uint32, tunnelPeerID uint8, needsBuffering bool) (entry *p4.TableEntry, err error)
+//@   requires t != nil
+//@   requires C16.down.meteridx: int64(sessMeterIdx) < oracleP4MeterSize(p4constants.MeterPreQosPipeSessionMeter)
+//@   ensures C04.sessdown.result: (err == nil) <==> (entry != nil)
+//@   ensures C16.sessdown.shape: err == nil && needsBuffering ==> specEntryShape(entry, 1) && !allocated(entry) && entry.TableId == p4constants.TablePreQosPipeSessionsDownlink && specEntryAction(entry).ActionId == p4constants.ActionPreQosPipeSetSessionDownlinkBuff
+//@   ensures C16.sessdown.shapefwd: err == nil && !needsBuffering ==> specEntryShape(entry, 2) && !allocated(entry) && entry.TableId == p4constants.TablePreQosPipeSessionsDownlink && specEntryAction(entry).ActionId == p4constants.ActionPreQosPipeSetSessionDownlink
+//@   ensures C04.sessdown.key: err == nil ==> glen("p4f") == old[int](glen("p4f"))+1 && specP4FieldLogged(gentry("p4f", old[int](glen("p4f"))), entry, "ue_address", 1, uint64(pdr.ueAddress), 0)
+//@   ensures C04.sessdown.buff: err == nil && needsBuffering ==> glen("p4p") == old[int](glen("p4p"))+1 && specP4ParamLogged(gentry("p4p", old[int](glen("p4p"))), specEntryAction(entry), "session_meter_idx", uint64(sessMeterIdx))
+//@   ensures C04.sessdown.fwd: err == nil && !needsBuffering ==> glen("p4p") == old[int](glen("p4p"))+2 && specP4ParamLogged(gentry("p4p", old[int](glen("p4p"))), specEntryAction(entry), "tunnel_peer_id", uint64(tunnelPeerID)) && specP4ParamLogged(gentry("p4p", old[int](glen("p4p"))+1), specEntryAction(entry), "session_meter_idx", uint64(sessMeterIdx))
+
+//@ func (t *P4rtTranslator) buildUplinkTerminationsEntry(pdr pdr, appMeterIdx uint32, shouldDrop bool, internalAppID uint8, tc uint8, relatedQER qer) (entry *p4.TableEntry, err error)
+//@   requires t != nil
+//@   requires C16.termup.envelope: tc <= 3 && int64(appMeterIdx) < oracleP4MeterSize(p4constants.MeterPreQosPipeAppMeter) && int64(pdr.ctrID) < oracleP4CounterSize(p4constants.CounterPreQosPipePreQosCounter)
+//@   ensures C04.termup.result: (err == nil) <==> (entry != nil)
+//@   ensures C04.termup.key: err == nil ==> glen("p4f") == old[int](glen("p4f"))+2 && specP4FieldLogged(gentry("p4f", old[int](glen("p4f"))), entry, "ue_address", 1, uint64(pdr.ueAddress), 0) && specP4FieldLogged(gentry("p4f", old[int](glen("p4f"))+1), entry, "app_id", 1, uint64(internalAppID), 0)
+//@   ensures C04.termup.drop: err == nil && (shouldDrop || relatedQER.ulStatus == ie.GateStatusClosed) ==> specEntryShape(entry, 1) && entry.TableId == p4constants.TablePreQosPipeTerminationsUplink && specEntryAction(entry).ActionId == p4constants.ActionPreQosPipeUplinkTermDrop && glen("p4p") == old[int](glen("p4p"))+1 && specP4ParamLogged(gentry("p4p", old[int](glen("p4p"))), specEntryAction(entry), "ctr_idx", uint64(pdr.ctrID))
+//@   ensures C04.termup.fwd: err == nil && !(shouldDrop || relatedQER.ulStatus == ie.GateStatusClosed) ==> specEntryShape(entry, 3) && entry.TableId == p4constants.TablePreQosPipeTerminationsUplink && specEntryAction(entry).ActionId == p4constants.ActionPreQosPipeUplinkTermFwd && glen("p4p") == old[int](glen("p4p"))+3 && specP4ParamLogged(gentry("p4p", old[int](glen("p4p"))), specEntryAction(entry), "tc", uint64(tc)) && specP4ParamLogged(gentry("p4p", old[int](glen("p4p"))+1), specEntryAction(entry), "app_meter_idx", uint64(appMeterIdx)) && specP4ParamLogged(gentry("p4p", old[int](glen("p4p"))+2), specEntryAction(entry), "ctr_idx", uint64(pdr.ctrID))
+
+//@ func (t *P4rtTranslator) buildDownlinkTerminationsEntry(pdr pdr, appMeterIdx uint32, relatedFAR far, internalAppID uint8, qfi uint8, tc uint8, relatedQER qer) (entry *p4.TableEntry, err error)
+//@   requires t != nil
+//@   requires C16.termdown.envelope: tc <= 3 && qfi < 64 && int64(appMeterIdx) < oracleP4MeterSize(p4constants.MeterPreQosPipeAppMeter) && int64(pdr.ctrID) < oracleP4CounterSize(p4constants.CounterPreQosPipePreQosCounter)
+//@   ensures C04.termdown.result: (err == nil) <==> (entry != nil)
+//@   ensures C04.termdown.key: err == nil ==> glen("p4f") == old[int](glen("p4f"))+2 && specP4FieldLogged(gentry("p4f", old[int](glen("p4f"))), entry, "ue_address", 1, uint64(pdr.ueAddress), 0) && specP4FieldLogged(gentry("p4f", old[int](glen("p4f"))+1), entry, "app_id", 1, uint64(internalAppID), 0)
+//@   ensures C04.termdown.drop: err == nil && (relatedFAR.applyAction&ActionDrop != 0 || relatedQER.dlStatus == ie.GateStatusClosed) ==> specEntryShape(entry, 1) && entry.TableId == p4constants.TablePreQosPipeTerminationsDownlink && specEntryAction(entry).ActionId == p4constants.ActionPreQosPipeDownlinkTermDrop && glen("p4p") == old[int](glen("p4p"))+1 && specP4ParamLogged(gentry("p4p", old[int](glen("p4p"))), specEntryAction(entry), "ctr_idx", uint64(pdr.ctrID))
+//@   ensures C04.termdown.fwd: err == nil && !(relatedFAR.applyAction&ActionDrop != 0 || relatedQER.dlStatus == ie.GateStatusClosed) ==> specEntryShape(entry, 5) && entry.TableId == p4constants.TablePreQosPipeTerminationsDownlink && specEntryAction(entry).ActionId == p4constants.ActionPreQosPipeDownlinkTermFwd && glen("p4p") == old[int](glen("p4p"))+5 && specP4ParamLogged(gentry("p4p", old[int](glen("p4p"))), specEntryAction(entry), "teid", uint64(relatedFAR.tunnelTEID)) && specP4ParamLogged(gentry("p4p", old[int](glen("p4p"))+1), specEntryAction(entry), "qfi", uint64(qfi)) && specP4ParamLogged(gentry("p4p", old[int](glen("p4p"))+2), specEntryAction(entry), "tc", uint64(tc)) && specP4ParamLogged(gentry("p4p", old[int](glen("p4p"))+3), specEntryAction(entry), "app_meter_idx", uint64(appMeterIdx)) && specP4ParamLogged(gentry("p4p", old[int](glen("p4p"))+4), specEntryAction(entry), "ctr_idx", uint64(pdr.ctrID))
+
+//@ func (t *P4rtTranslator) BuildGTPTunnelPeerTableEntry(tunnelPeerID uint8, tunnelParams tunnelParams) (entry *p4.TableEntry, err error)
+//@   requires t != nil
+//@   ensures C04.peer.result: (err == nil) <==> (entry != nil)
+//@   ensures C16.peer.shape: err == nil ==> specEntryShape(entry, 3) && !allocated(entry) && entry.TableId == p4constants.TablePreQosPipeTunnelPeers && specEntryAction(entry).ActionId == p4constants.ActionPreQosPipeLoadTunnelParam
+//@   ensures C04.peer.key: err == nil ==> glen("p4f") == old[int](glen("p4f"))+1 && specP4FieldLogged(gentry("p4f", old[int](glen("p4f"))), entry, "tunnel_peer_id", 1, uint64(tunnelPeerID), 0)
+//@   ensures C04.peer.params: err == nil ==> glen("p4p") == old[int](glen("p4p"))+3 && specP4ParamLogged(gentry("p4p", old[int](glen("p4p"))), specEntryAction(entry), "src_addr", uint64(tunnelParams.tunnelIP4Src)) && specP4ParamLogged(gentry("p4p", old[int](glen("p4p"))+1), specEntryAction(entry), "dst_addr", uint64(tunnelParams.tunnelIP4Dst)) && specP4ParamLogged(gentry("p4p", old[int](glen("p4p"))+2), specEntryAction(entry), "sport", uint64(tunnelParams.tunnelPort))
+
+//@ func (t *P4rtTranslator) BuildMeterEntry(meterID uint32, cellID uint32, config *p4.MeterConfig) (entry *p4.MeterEntry)
+//@   requires C16.meter.index: int64(cellID) < oracleP4MeterSize(meterID)
+//@   ensures C16.meter.entry: entry != nil && !allocated(entry) && entry.MeterId == meterID && entry.Index != nil && entry.Index.Index == int64(cellID) && entry.Config == config
+
+//@ func (t *P4rtTranslator) BuildInterfaceTableEntry(ipNet *net.IPNet, sliceID uint8, isCore bool) (entry *p4.TableEntry, err error)
+//@   requires t != nil && ipNet != nil
+//@   requires C16.iface.envelope: sliceID <= 15 && len(ipNet.IP) == 4 && len(ipNet.Mask) == 4 && 1 <= specMaskOnes(ipNet.Mask)
+//@   ensures C04.iface.result: (err == nil) <==> (entry != nil)
+//@   ensures C16.iface.shape: err == nil ==> specEntryShape(entry, 3) && !allocated(entry) && entry.TableId == p4constants.TablePreQosPipeInterfaces && specEntryAction(entry).ActionId == p4constants.ActionPreQosPipeSetSourceIface
+//@   ensures C04.iface.key: err == nil ==> glen("p4f") == old[int](glen("p4f"))+1 && specP4FieldLogged(gentry("p4f", old[int](glen("p4f"))), entry, "ipv4_dst_prefix", 2, uint64(ip2int(ipNet.IP)), uint64(uint8(specMaskOnes(ipNet.Mask))))
+//@   ensures C04.iface.core: err == nil && isCore ==> glen("p4p") == old[int](glen("p4p"))+3 && specP4ParamLogged(gentry("p4p", old[int](glen("p4p"))), specEntryAction(entry), "src_iface", core) && specP4ParamLogged(gentry("p4p", old[int](glen("p4p"))+1), specEntryAction(entry), "direction", DirectionDownlink) && specP4ParamLogged(gentry("p4p", old[int](glen("p4p"))+2), specEntryAction(entry), "slice_id", uint64(sliceID))
+//@   ensures C04.iface.access: err == nil && !isCore ==> glen("p4p") == old[int](glen("p4p"))+3 && specP4ParamLogged(gentry("p4p", old[int](glen("p4p"))), specEntryAction(entry), "src_iface", access) && specP4ParamLogged(gentry("p4p", old[int](glen("p4p"))+1), specEntryAction(entry), "direction", DirectionUplink) && specP4ParamLogged(gentry("p4p", old[int](glen("p4p"))+2), specEntryAction(entry), "slice_id", uint64(sliceID))
+
+// specAppIP / specAppMask / specAppPorts: the remote ("application") side of a PDR's filter.
+func specAppIP(p pdr) uint32 {
+	if p.srcIface == access {
+		return p.appFilter.dstIP
+	}
+	if p.srcIface == core {
+		return p.appFilter.srcIP
+	}
+
+	return 0
+}
+
+func specAppMask(p pdr) uint32 {
+	if p.srcIface == access {
+		return p.appFilter.dstIPMask
+	}
+	if p.srcIface == core {
+		return p.appFilter.srcIPMask
+	}
+
+	return 0
+}
+
+func specAppPorts(p pdr) portRange {
+	if p.srcIface == access {
+		return p.appFilter.dstPortRange
+	}
+	if p.srcIface == core {
+		return p.appFilter.srcPortRange
+	}
+
+	return portRange{}
+}
+
+//@ func (t *P4rtTranslator) BuildApplicationsTableEntry(pdr pdr, sliceID uint8, internalAppID uint8) (entry *p4.TableEntry, err error)
+//@   requires t != nil
+//@   requires C16.app.envelope: sliceID <= 15 && pdr.precedence <= 65534 && specAppPorts(pdr).low <= specAppPorts(pdr).high
+//@   ensures C04.app.result: (err == nil) <==> (entry != nil)
+//@   ensures C16.app.shape: err == nil ==> specEntryShape(entry, 1) && !allocated(entry) && entry.TableId == p4constants.TablePreQosPipeApplications && specEntryAction(entry).ActionId == p4constants.ActionPreQosPipeSetAppId
+//@   ensures C04.app.priority: err == nil ==> entry.Priority == int32(65535-pdr.precedence)
+//@   ensures C04.app.slice: err == nil ==> glen("p4f") >= old[int](glen("p4f"))+1 && specP4FieldLogged(gentry("p4f", old[int](glen("p4f"))), entry, "slice_id", 1, uint64(sliceID), 0)
+//@   ensures C04.app.param: err == nil ==> glen("p4p") == old[int](glen("p4p"))+1 && specP4ParamLogged(gentry("p4p", old[int](glen("p4p"))), specEntryAction(entry), "app_id", uint64(internalAppID))
+//@   ensures C04.app.fields: err == nil ==> glen("p4f") == old[int](glen("p4f"))+1+specB2I(specAppMask(pdr) != 0)+specB2I(!specAppPorts(pdr).isWildcardMatch())+specB2I(pdr.appFilter.proto != 0 && pdr.appFilter.protoMask != 0)
+//@   ensures C04.app.ip: err == nil && specAppMask(pdr) != 0 ==> gfieldS("p4f.name", gentry("p4f", old[int](glen("p4f"))+1)) == "app_ip_addr" && gfield("p4f.kind", gentry("p4f", old[int](glen("p4f"))+1)) == 2 && gfield("p4f.val", gentry("p4f", old[int](glen("p4f"))+1)) == uint64(specAppIP(pdr))
+//@   ensures C04.app.ports: err == nil && !specAppPorts(pdr).isWildcardMatch() ==> specP4FieldLogged(gentry("p4f", old[int](glen("p4f"))+1+specB2I(specAppMask(pdr) != 0)), entry, "app_l4_port", 4, uint64(specAppPorts(pdr).low), uint64(specAppPorts(pdr).high))
+//@   ensures C04.app.proto: err == nil && pdr.appFilter.proto != 0 && pdr.appFilter.protoMask != 0 ==> specP4FieldLogged(gentry("p4f", glen("p4f")-1), entry, "app_ip_proto", 3, uint64(pdr.appFilter.proto), uint64(pdr.appFilter.protoMask))
+
+func specB2I(b bool) int {
+	if b {
+		return 1
+	}
+
+	return 0
+}
+
+//@ func verifyPDR(pdr pdr) (err error)
+//@   ensures C16.verify: (err == nil) <==> pdr.precedence <= 65534
